@@ -290,6 +290,11 @@ type PanicSpec struct {
 	BLit    B          `json:"b"`
 	BArg    *Val       `json:"bArg"`
 	Under   string     `json:"under"` // "", Unsafe, Slice
+	// HookOps: for kinds other than "hook", a (non-panicking) error hook
+	// installed for the whole call: it renders error payloads, and may print
+	// operands of its own whose methods panic (contained inside the hook)
+	HookOps    []*Op `json:"hookOps,omitempty"`
+	HasHookOps bool  `json:"hasHookOps,omitempty"`
 }
 
 var panicMethodName = map[string]string{"stringer!": "String", "pstringer!": "String", "err!": "Error", "perr!": "Error", "gostr!": "GoString",
@@ -332,7 +337,12 @@ func checkC11Panic(s *PanicSpec) Result {
 	if hasHook {
 		hookOps = append(append([]*Op(nil), s.Partial...), &Op{K: "Panic", Args: []*Val{s.Payload}})
 	}
-	applyConfig(nil, hasHook, hookOps)
+	if !hasHook && s.HasHookOps {
+		applyConfig(nil, true, s.HookOps)
+		res.Classes = append(res.Classes, "bystander-hook")
+	} else {
+		applyConfig(nil, hasHook, hookOps)
+	}
 	defer resetConfig()
 
 	aArgs, bArgs := []interface{}{}, []interface{}{}
